@@ -10,6 +10,7 @@ for c in "$@"; do
   out=$(./check $c $tier 2>&1); rc=$?
   echo "$c rc=$rc $(echo "$out" | grep -E "^C[0-9]+ (quick|thorough)" | cut -c1-110)"
   echo "$out" | grep -E "^  [a-z].*:" | head -2 | cut -c1-400
+  echo "$out" | grep -E "^VIOLATION" | head -1
 done
 git -C /repo checkout -- . 
 rm -rf /verif/evidence; mv /verif/scratch/evidence.keep /verif/evidence
